@@ -152,7 +152,7 @@ Qed.
 
 (* ------------------------------------------------------------------ invariant *)
 
-Definition file_ok (f : bfile) : Prop := 1 <= bf_interval f.
+Definition file_ok (f : bfile) : Prop := 1 <= bf_interval f /\ NoDup (map sl_key (bf_slots f)).
 
 Definition coin_basic (c : gcoin) : Prop :=
   gc_denom_ok c = true /\ 0 <= gc_bal c < B62 /\ 0 <= gc_amt c < B62.
@@ -185,27 +185,153 @@ Qed.
 
 (* ------------------------------------------------------------------ files never panic *)
 
-Lemma manage_slot_safe f h s : file_ok f -> exists v, manage_slot f h s = Done v.
+Definition nk (key k : N) : bool := negb (N.eqb k key).
+Open Scope nat_scope.
+
+Fixpoint lastelt (x : N) (l : list N) : N := match l with [] => x | y :: r => lastelt y r end.
+
+Lemma lastelt_in x l : In (lastelt x l) (x :: l).
+Proof. revert x. induction l as [|y r IH]; intros x; cbn; [left; reflexivity | right; apply IH]. Qed.
+
+Lemma skipn_lastelt x R T : skipn (length R) (x :: R ++ T) = lastelt x R :: T.
+Proof. revert x. induction R as [|y r IH]; intros x; cbn [length skipn app lastelt]; [reflexivity | apply IH]. Qed.
+
+Lemma nth_mid (P : list N) x R : nth (length P) (P ++ x :: R) 0%N = x.
+Proof. rewrite app_nth2 by lia. rewrite Nat.sub_diag. reflexivity. Qed.
+
+Lemma filter_nk_notin key l : ~ In key l -> filter (nk key) l = l.
 Proof.
-  intros Hf. unfold manage_slot, rounded_window, file_ok in *.
-  destruct (negb (is_young f h) && negb (sl_found s)); [eexists; reflexivity|].
+  induction l as [|x r IH]; intros Hn; cbn; [reflexivity|].
+  unfold nk at 1. destruct (N.eqb_spec x key) as [->|Hne]; cbn.
+  - exfalso. apply Hn. left. reflexivity.
+  - f_equal. apply IH. intros C. apply Hn. right. exact C.
+Qed.
+
+(* shifting out position |P| of the slice P ++ x :: R (backing array P ++ x :: R ++ T) *)
+Lemma shift_decomp P x R T :
+  shift (P ++ x :: R ++ T) (length P) (length P + S (length R)) = P ++ R ++ lastelt x R :: T.
+Proof.
+  unfold shift.
+  assert (E1 : firstn (length P) (P ++ x :: R ++ T) = P).
+  { rewrite firstn_app, Nat.sub_diag, firstn_all. cbn. apply app_nil_r. }
+  assert (E2 : firstn (length P + S (length R)) (P ++ x :: R ++ T) = P ++ x :: R).
+  { replace (P ++ x :: R ++ T) with ((P ++ x :: R) ++ T) by (rewrite <- app_assoc; reflexivity).
+    rewrite firstn_app. replace (length P + S (length R)) with (length (P ++ x :: R)) by (rewrite app_length; reflexivity).
+    rewrite firstn_all, Nat.sub_diag. cbn. apply app_nil_r. }
+  rewrite E1, E2. f_equal.
+  assert (E3 : skipn (S (length P)) (P ++ x :: R) = R).
+  { rewrite skipn_app. rewrite skipn_all2 by lia. replace (S (length P) - length P)%nat with 1%nat by lia. reflexivity. }
+  rewrite E3. f_equal.
+  replace (length P + S (length R) - 1)%nat with (length P + length R)%nat by lia.
+  rewrite skipn_app. rewrite skipn_all2 by lia. replace (length P + length R - length P)%nat with (length R) by lia.
+  cbn [app]. apply skipn_lastelt.
+Qed.
+
+(* no further match: the loop runs out without changing anything *)
+Lemma rwkB R : forall P T len key, ~ In key R ->
+  rwk (length R) (length P) (P ++ R ++ T) len key = Done (P ++ R ++ T, len).
+Proof.
+  induction R as [|x r IH]; intros P T len key Hn; cbn [length rwk]; [reflexivity|].
+  cbn [app]. rewrite nth_mid.
+  destruct (N.eqb_spec x key) as [->|Hne]; [exfalso; apply Hn; left; reflexivity|].
+  specialize (IH (P ++ [x]) T len key ltac:(intros C; apply Hn; right; exact C)).
+  rewrite app_length in IH. cbn [length] in IH. rewrite Nat.add_1_r in IH.
+  rewrite <- app_assoc in IH. cbn [app] in IH. exact IH.
+Qed.
+
+Lemma rwkA R : forall P T key, ~ In key P -> NoDup (P ++ R) ->
+  exists T', rwk (length R) (length P) (P ++ R ++ T) (length P + length R) key
+             = Done (filter (nk key) (P ++ R) ++ T', length (filter (nk key) (P ++ R))).
+Proof.
+  induction R as [|x r IH]; intros P T key Hn ND; cbn [length rwk].
+  - exists T. rewrite app_nil_r, Nat.add_0_r. rewrite filter_nk_notin by exact Hn. reflexivity.
+  - cbn [app]. rewrite nth_mid. destruct (N.eqb_spec x key) as [->|Hne].
+    + (* the unique occurrence *)
+      assert (Hr : ~ In key r).
+      { apply NoDup_remove_2 in ND. intros C. apply ND. apply in_or_app. right. exact C. }
+      assert (Nat.leb (S (length P)) (length P + S (length r)) = true) as -> by (apply Nat.leb_le; lia).
+      rewrite shift_decomp.
+      replace (length P + S (length r) - 1)%nat with (length P + length r)%nat by lia.
+      assert (EF : filter (nk key) (P ++ key :: r) = P ++ r).
+      { rewrite filter_app. cbn [filter]. unfold nk at 2. rewrite N.eqb_refl. cbn.
+        rewrite !filter_nk_notin by assumption. reflexivity. }
+      rewrite EF, app_length.
+      destruct r as [|r0 r'].
+      * cbn [length rwk app lastelt]. exists (key :: T). rewrite Nat.add_0_r, !app_nil_r. reflexivity.
+      * exists (lastelt key (r0 :: r') :: T).
+        pose proof (rwkB (r' ++ [lastelt r0 r']) (P ++ [r0]) T (length P + length (r0 :: r')) key) as HB.
+        assert (Hnot : ~ In key (r' ++ [lastelt r0 r'])).
+        { intros C. apply in_app_or in C as [C|[C|[]]].
+          - apply Hr. right. exact C.
+          - apply Hr. rewrite <- C. apply lastelt_in. }
+        specialize (HB Hnot).
+        rewrite !app_length in HB. cbn [length] in HB.
+        replace (length r' + 1)%nat with (S (length r')) in HB by lia.
+        replace (length P + 1)%nat with (S (length P)) in HB by lia.
+        cbn [length lastelt].
+        replace ((P ++ [r0]) ++ (r' ++ [lastelt r0 r']) ++ T) with (P ++ (r0 :: r') ++ lastelt r0 r' :: T) in HB
+          by (rewrite <- !app_assoc; cbn [app]; reflexivity).
+        rewrite HB. rewrite <- app_assoc. reflexivity.
+    + assert (Hn' : ~ In key (P ++ [x])).
+      { intros C. apply in_app_or in C as [C|[C|[]]]; [exact (Hn C) | exact (Hne C)]. }
+      assert (ND' : NoDup ((P ++ [x]) ++ r)) by (rewrite <- app_assoc; exact ND).
+      destruct (IH (P ++ [x]) T key Hn' ND') as [T' E].
+      rewrite app_length in E. cbn [length] in E.
+      replace (length P + 1)%nat with (S (length P)) in E by lia.
+      rewrite <- !app_assoc in E. cbn [app] in E.
+      replace (S (length P) + length r)%nat with (length P + S (length r))%nat in E by lia.
+      exists T'. exact E.
+Qed.
+
+Lemma remove_with_key_spec L T key : NoDup L ->
+  exists T', remove_with_key (L ++ T) (length L) key = Done (filter (nk key) L ++ T', length (filter (nk key) L)).
+Proof.
+  intros ND. unfold remove_with_key. exact (rwkA L [] T key (fun C => C) ND).
+Qed.
+
+Close Scope nat_scope.
+
+Lemma manage_slot_safe f h fd last : 1 <= bf_interval f -> exists v, manage_slot f h fd last = Done v.
+Proof.
+  intros Hf. unfold manage_slot, rounded_window.
+  destruct (negb (is_young f h) && negb fd); [eexists; reflexivity|].
   destruct (Z.eqb_spec (bf_interval f) 0); [lia|].
   destruct (negb _ && negb _); eexists; reflexivity.
 Qed.
 
-Lemma manage_slots_safe f h l : file_ok f -> exists l', manage_slots f h l = Done l'.
+Lemma NoDup_filter_N (g : N -> bool) l : NoDup l -> NoDup (filter g l).
 Proof.
-  intros Hf. induction l as [|s r [r' IH]]; cbn [manage_slots]; [eexists; reflexivity|].
-  destruct (manage_slot_safe f h s Hf) as [v ->]. rewrite IH. eexists; reflexivity.
+  induction l as [|x r IH]; intros ND; cbn; [constructor|]. inversion ND as [|? ? Hx Hr]; subst.
+  destruct (g x); [constructor; [intros C; apply filter_In in C as [C _]; exact (Hx C) | exact (IH Hr)] | exact (IH Hr)].
+Qed.
+
+Lemma manage_walk_safe f h todo : 1 <= bf_interval f -> forall L T removed, NoDup L ->
+  exists L' T', manage_walk f h todo (L ++ T) (length L) removed = Done (L' ++ T', length L') /\ NoDup L'.
+Proof.
+  intros Hf. induction todo as [|s r IH]; intros L T removed ND; cbn [manage_walk].
+  - exists L, T. split; [reflexivity | exact ND].
+  - destruct (manage_slot_safe f h (sl_found s && negb (mem_key (sl_key s) removed)) (sl_last s) Hf) as [v ->].
+    destruct v; try (apply IH; exact ND);
+      destruct (remove_with_key_spec L T (sl_key s) ND) as [T' ->];
+      apply IH; apply NoDup_filter_N; exact ND.
+Qed.
+
+Lemma sl_key_slot_of l k : sl_key (slot_of l k) = k.
+Proof.
+  unfold slot_of. destruct (find _ l) as [s|] eqn:E; [|reflexivity].
+  apply find_some in E as [_ E]. apply N.eqb_eq in E. exact E.
 Qed.
 
 Lemma manage_file_safe h f : file_ok f ->
   exists o, manage_file h f = Done o /\ (forall f', o = Some f' -> file_ok f').
 Proof.
-  intros Hf. unfold manage_file. destruct (bf_slots f) as [|s r] eqn:E.
-  - destruct (is_young f h); eexists; split; try reflexivity; intros f' [=]; subst; exact Hf.
-  - destruct (manage_slots_safe f h (s :: r) Hf) as [l' ->].
-    eexists; split; [reflexivity|]. intros f' [=]; subst. exact Hf.
+  intros [Hi Hnd]. unfold manage_file. destruct (bf_slots f) as [|s r] eqn:E.
+  - destruct (is_young f h); eexists; split; try reflexivity; intros f' [=]; subst; split; [exact Hi | rewrite E; constructor].
+  - destruct (manage_walk_safe f h (s :: r) Hi (map sl_key (s :: r)) [] [] Hnd) as (L' & T' & HW & ND').
+    rewrite app_nil_r, map_length in HW. rewrite HW.
+    eexists; split; [reflexivity|]. intros f' [=]; subst f'. split; [exact Hi|]. cbn [bf_slots].
+    rewrite firstn_app, Nat.sub_diag, firstn_all. cbn [firstn]. rewrite app_nil_r.
+    rewrite map_map. erewrite map_ext; [rewrite map_id; exact ND' | intros k; apply sl_key_slot_of].
 Qed.
 
 Lemma manage_files_safe h fs : Forall file_ok fs ->
@@ -323,8 +449,28 @@ Definition valid_op (b : bstate) (o : bop) : Prop :=
   | OpDonate i j amt => 0 <= amt /\
       forall g c, nth_error (ss_gauges (b_s b)) i = Some g -> nth_error (g_coins g) j = Some c -> gc_bal c + amt < B62
   | OpSetWindows cw pw => 1 < cw /\ 1 < pw
+  | OpAddSlot i key _ =>      (* PostProof lists a prover only if file.ContainsProver says it is not listed yet *)
+      forall f, nth_error (ss_files (b_s b)) i = Some f -> ~ In key (map sl_key (bf_slots f))
   | _ => True
   end.
+
+Lemma NoDup_del {A} (l : list A) i : NoDup l -> NoDup (del l i).
+Proof.
+  revert i. induction l as [|x r IH]; intros i ND; cbn [del]; [destruct i; constructor|].
+  inversion ND as [|? ? Hx Hr]; subst. destruct i as [|j]; [exact Hr|].
+  constructor; [|apply IH; exact Hr]. intros C. apply Hx. clear -C. revert j C.
+  induction r as [|y t IHt]; intros j C; cbn [del] in C; [destruct j; destruct C|].
+  destruct j; [right; exact C|]. destruct C as [C|C]; [left; exact C | right; exact (IHt j C)].
+Qed.
+
+Lemma map_del {A B} (g : A -> B) l i : map g (del l i) = del (map g l) i.
+Proof. revert i. induction l as [|x r IH]; intros i; cbn; [destruct i; reflexivity|]. destruct i; cbn; [reflexivity | f_equal; apply IH]. Qed.
+
+Lemma map_upd_same {A B} (g : A -> B) l i f : (forall x, g (f x) = g x) -> map g (upd l i f) = map g l.
+Proof.
+  intros H. revert i. induction l as [|x r IH]; intros i; cbn; [destruct i; reflexivity|].
+  destruct i; cbn; [rewrite H; reflexivity | f_equal; apply IH].
+Qed.
 
 Lemma Forall_upd {A} (P : A -> Prop) l i f :
   Forall P l -> (forall x, nth_error l i = Some x -> P x -> P (f x)) -> Forall P (upd l i f).
@@ -344,15 +490,27 @@ Qed.
 Lemma Forall_app_one {A} (P : A -> Prop) l x : Forall P l -> P x -> Forall P (l ++ [x]).
 Proof. intros. apply Forall_app. split; [assumption | constructor; [assumption | constructor]]. Qed.
 
+Lemma NoDup_app_one {A} (l : list A) x : NoDup l -> ~ In x l -> NoDup (l ++ [x]).
+Proof.
+  induction l as [|y r IH]; intros ND Hn; cbn; [constructor; [intros []|constructor]|].
+  inversion ND as [|? ? Hy Hr]; subst. constructor.
+  - intros C. apply in_app_or in C as [C|[C|[]]]; [exact (Hy C) | apply Hn; left; symmetry; exact C].
+  - apply IH; [exact Hr | intros C; apply Hn; right; exact C].
+Qed.
+
 Lemma apply_op_inv b o : Inv b -> valid_op b o -> Inv (apply_op b o).
 Proof.
   intros (Hcw & Hpw & HF & HG) Hv. pose proof P18_pos as HP.
-  destruct o as [size | i found | i j | i j | i | e amt dok | i amt | i j amt | i | cw pw]; cbn [apply_op];
+  destruct o as [size | i key found | i j | i j | i | e amt dok | i amt | i j amt | i | cw pw]; cbn [apply_op];
     unfold Inv, with_files, with_gauges; cbn [b_s b_proof_window b_now b_height ss_check_window ss_files ss_gauges].
-  - (* PostFile *) repeat split; try assumption. apply Forall_app_one; [exact HF|]. unfold file_ok; cbn. exact Hpw.
-  - repeat split; try assumption. apply Forall_upd; [exact HF|]. intros f _ Hf. exact Hf.
-  - repeat split; try assumption. apply Forall_upd; [exact HF|]. intros f _ Hf. exact Hf.
-  - repeat split; try assumption. apply Forall_upd; [exact HF|]. intros f _ Hf. exact Hf.
+  - (* PostFile *) repeat split; try assumption. apply Forall_app_one; [exact HF|]. unfold file_ok; cbn. split; [exact Hpw | constructor].
+  - (* AddSlot *) repeat split; try assumption. apply Forall_upd; [exact HF|]. intros f Hn [Hi Hnd].
+    split; [exact Hi|]. cbn [set_slots bf_slots]. rewrite map_app. cbn [map sl_key].
+    apply NoDup_app_one; [exact Hnd | exact (Hv f Hn)].
+  - (* Prove *) repeat split; try assumption. apply Forall_upd; [exact HF|]. intros f _ [Hi Hnd].
+    split; [exact Hi|]. cbn [set_slots bf_slots]. rewrite map_upd_same by reflexivity. exact Hnd.
+  - (* DropSlot *) repeat split; try assumption. apply Forall_upd; [exact HF|]. intros f _ [Hi Hnd].
+    split; [exact Hi|]. cbn [set_slots bf_slots]. rewrite map_del. apply NoDup_del. exact Hnd.
   - repeat split; try assumption. apply Forall_del. exact HF.
   - (* NewGauge *) destruct Hv as (-> & Ha & Hm). repeat split; try assumption.
     apply Forall_app_one; [exact HG|]. unfold gauge_ok; cbn [g_start g_end g_coins].
@@ -489,7 +647,7 @@ Proof.
   destruct (share64_ok (dev_ratio p) e ltac:(lia) He) as (x2 & -> & Hx2).
   destruct (Z.ltb_spec x2 0); [lia|].
   destruct (pay _ _ _ _); [|reflexivity].
-  destruct sp; [|reflexivity]. cbn [negb].
   destruct (share64_ok (prov_ratio p) e ltac:(lia) He) as (x3 & -> & Hx3).
+  destruct sp; [|reflexivity]. cbn [negb].
   destruct (Z.ltb_spec x3 0); [lia | reflexivity].
 Qed.
